@@ -251,6 +251,9 @@ pub fn v_box_flush(w: &mut Box<dyn VWrite>) -> (r: vio::Result<()>)
 pub uninterp spec fn path_exists(p: Seq<char>) -> bool;
 #[verifier::external_body]
 pub fn v_path_exists(p: &String) -> (r: bool) ensures r == path_exists(p@) { unimplemented!() }
+/// rule R23: `Path::new(x).exists()` for x a `&str` / `&String` / `String` binding
+#[verifier::external_body]
+pub fn v_path_exists_any<T: VPathText>(p: T) -> (r: bool) ensures r == path_exists(p.path_text()) { unimplemented!() }
 #[verifier::external_body]
 pub fn v_path_exists_str(p: &str) -> (r: bool) ensures r == path_exists(p@) { unimplemented!() }
 #[verifier::external_body]
